@@ -802,6 +802,12 @@ func (c *TermCtx) DivModConst(a *Term, k uint64, signed bool) (q, r *Term) {
 	if a.op == OpMul && a.args[1].op == OpConst && a.args[1].c == k && a.rng {
 		return a.args[0], c.Const(w, 0)
 	}
+	// (x*k + c) / k with no overflow (ranges known) and c >= 0
+	if a.op == OpAdd && a.rng && a.args[1].op == OpConst && a.args[0].op == OpMul && a.args[0].rng &&
+		a.args[0].args[1].op == OpConst && a.args[0].args[1].c == k && a.args[1].c <= mask(w)>>1 && nonNeg(a) {
+		x := a.args[0].args[0]
+		return c.Add(x, c.Const(w, a.args[1].c/k)), c.Const(w, a.args[1].c%k)
+	}
 	if a.rng && a.hi < k && (!signed || nonNeg(a)) {
 		return c.Const(w, 0), a
 	}
